@@ -1,7 +1,9 @@
 CONSTANTS
   Alphabet <- L2
   Core <- L2Core
+  Mid <- L2Core
   MaxAll = 3
+  MaxMid = 3
   MaxCore = 3
   Wrappers <- Wrap2
   MaxWrap = 2
